@@ -128,7 +128,7 @@ Proof. intros c H. apply focus_total_thm. apply wt_core_focus_wf. exact H. Qed.
 (* ---------- 3. the capture defect at the level of typing ---------- *)
 From SCC Require Import Lang.FunSyn Model.Check Sem.FunTyping Model.Fun2Core Model.WtDefs.
 
-(* REGRESSION (fixed in /repo by <commitcap>).  An accepted program - accepted by the model of the checker AND
+(* REGRESSION (fixed in /repo by d5d4151).  An accepted program - accepted by the model of the checker AND
    well-typed according to the declarative specification Sem/FunTyping.v - whose translation BEFORE THE FIX
    ([compile_prog_before_fix]) is an ILL-TYPED Core program.  The annotated form is the real checker's output
    for corpus/fun/c12_capture_illtyped.sc (compared by modelrun `wt-stages` on every run). *)
